@@ -196,6 +196,17 @@ func checkC27(r *Run) {
 		req("signature equals HMAC(secret, payload)", "base64.Encoding.EncodeToString(base64.RawURLEncoding, iface:hash.Hash.Sum(hmac.New(sha256.New, api.csrfSecretKey), nil)) == "+tp+"[1]"),
 		req("payload parses", "ok(json.Unmarshal(*))"),
 		req("not expired", "!time.Time.After(time.Now(), *ExpiresAt)"))
+	// the access-control configuration reaches the mux exactly as the caller gave it: create() copies each
+	// security-relevant Config field into muxConfig unchanged and never rewrites it (no silent defaults)
+	if fn := r.fn("C27-R2", "api.create"); fn != nil {
+		fs := r.fieldStores(fn)
+		for _, pr := range [][2]string{{"enabledAPISets", "EnabledAPISets"}, {"disableCSRF", "DisableCSRF"}, {"disableHeaderCheck", "DisableHeaderCheck"}, {"hostWhitelist", "HostWhitelist"}, {"username", "Username"}, {"password", "Password"}} {
+			v := fs[pr[0]]
+			ok := (v == "$1."+pr[1] || glob("$1{*}."+pr[1], v)) && !strings.Contains(v, pr[1]+":")
+			r.Check("C27-R2", "api.create: muxConfig."+pr[0]+" is Config."+pr[1]+" as given (not defaulted or rewritten)", r.P.Pos(fn.Pos()), ok, trunc(v, 200))
+		}
+		r.Check("C27-R2", "api.create: muxConfig.host is the host argument", r.P.Pos(fn.Pos()), fs["host"] == "$0", fs["host"])
+	}
 	// the signing secret exists before any request can be verified: it is written by package initialisation
 	// only (never lazily, never again), from the random source, with a fixed non-trivial length
 	nW := 0
